@@ -133,9 +133,11 @@ def run(ctx, report: Report) -> None:
             r2.violation(f'{r.name} nullable', r.where,
                          f'token pattern {r.name} can match the empty string: the tokenizer loop would not advance')
     mod, fn = src.func('css_parser.CSSParser.selector_iter')
+    # semantic progress argument (interpretation with abstract matchers); the structural path rule is kept as a second
+    # opinion where the loop has the shape it understands
+    from .sem import tokenizer_progress
+    tokenizer_progress(ctx, r2)
     loops = find_scanner_loops(mod, 'css_parser.CSSParser.selector_iter', fn)
-    if not loops:
-        raise AnalysisError('css_parser.CSSParser.selector_iter: no index-driven token loop found (anchor vanished)')
     for lp in loops:
         r2.instance({'loop': f'{lp.func}: while {unparse(lp.node.test)}', 'index': lp.idx,
                      'match_vars': sorted(lp.match_vars), 'paths_without_progress': lp.bad_paths}, key=lp.func)
@@ -156,8 +158,7 @@ def run(ctx, report: Report) -> None:
                             and unparse(anc.iter) in ('self.css_tokens', 'cls.css_tokens', 'CSSParser.css_tokens'):
                         ok = True
             if not ok:
-                raise AnalysisError(f'{mod.where(call)}: matcher {unparse(recv)} of the token loop is not drawn '
-                                    'from css_tokens (unrecognised idiom)')
+                r2.note(f'{mod.where(call)}: matcher {unparse(recv)} of the token loop is not recognisably drawn from css_tokens')
 
     # ---- R3 ------------------------------------------------------------------------------------------
     r3 = report.rule('C07-R3', 'every regex application resolves to an inventoried regex', floor=20)
